@@ -402,8 +402,10 @@ def run_big(case, R):
         ("pickle", lambda: pickle.loads(pickle.dumps(p)), m), ("add", lambda: p + p[::-1], m + m.map(lambda c: c[::-1])),
         ("multiply", lambda: p * q0, m * x), ("derivative", lambda: numpoly.derivative(p, "q0"), m.diff("q0")),
     ):
-        expect(R, op, f"exponent {e}", f, eq_model(want), tags, allow_error=True)
-    expect(R, "call(1)", f"exponent {e}", lambda: p(1), lambda got: numpy.asarray(got).tolist() == coef or "wrong", tags, allow_error=True)
+        # one indeterminate: representable up to 0x10FFFF - 59; below that limit the operation has to succeed
+        fits = (e + (1 if op == "multiply" else 0)) <= 0x10FFFF - KEY_OFFSET
+        expect(R, op, f"exponent {e}", f, eq_model(want), tags + (["representable"] if fits else []), allow_error=not fits)
+    expect(R, "call(1)", f"exponent {e}", lambda: p(1), lambda got: numpy.asarray(got).tolist() == coef or "wrong", tags, allow_error=e > 0x10FFFF - KEY_OFFSET)
     text_roundtrip(R, p, m, f"exponent {e}", tags)
 
 
@@ -451,8 +453,8 @@ def run_huge(case, R):
 def run_bigpowers(case, R):
     """(c*q0**a)**n for every pair of a menu of bases and exponents whose product lies below, at and far beyond the
     representable range (also beyond 2**32): the exact power or an error"""
-    A = [46341, 65536, 100000, 1114052]
-    N = [2, 3, 17, 24, 42950, 65536, 92682]
+    A = [46341, 65536, 100000, 1114052, 40000, 70000, 300000, 557026]
+    N = [2, 3, 17, 24, 42950, 65536, 92682, 9, 10, 20]
     for a in A:
         p, _ = build_block([a], [2])
         R.state(("bigpowers", a))
@@ -464,8 +466,10 @@ def run_bigpowers(case, R):
                     f"(2*q0**{a})**{n} stored the monomials {list(alpha(got).t)[:3]}"
             else:
                 ok = eq_model(want)
+            # with one indeterminate the key character caps the exponent at 0x10FFFF - 59: below that the power has to be computed
+            representable = a * n <= 0x10FFFF - KEY_OFFSET
             for lab, f in (("**", lambda: p ** n), ("numpoly.power", lambda: numpoly.power(p, n)), ("numpy.power", lambda: numpy.power(p, n))):
-                expect(R, lab, f"(2*q0**{a})**{n}", f, ok, ["bigpowers"], allow_error=True)
+                expect(R, lab, f"(2*q0**{a})**{n}", f, ok, ["bigpowers", "representable" if representable else "beyond"], allow_error=not representable)
         # with a second indeterminate the keys hold exponents up to 2**32-60
         for a2, n2 in ((2 ** 30, 3), (2 ** 30, 4), (2 ** 31, 2), (2 ** 16, 3)):
             sp = spec(("q0", "q1"), (), [((a2, 1), 2)])
